@@ -13,7 +13,8 @@ META = {
         "quick": "partition(timeout): k<=3 arrivals; timed_window / timed_window_unique: k<=2 (sharded); gaps sym in [0,4], "
                  "interval/timeout sym in [1,3], consumer durations sym in [0,3], partition size n in {1,2,3} (sharded), "
                  "keys sym in {0,1}, same-instant order sym",
-        "thorough": "k<=4 arrivals for partition, k<=3 for timed_window(_unique); gaps in [0,5], interval in [1,3], durations in [0,4]",
+        "thorough": "k<=4 arrivals for partition (3 into a slow consumer), k<=3 for timed_window(_unique) with gaps in [0,3], "
+                    "interval in [1,2]",
     },
     "outside": ["clock drift", "convert_interval string parsing (pandas)", "awaiting producers (covered in C02/C03)"],
     "stubs": ["clock: streamz.core.time / IOLoop.time -> virtual integer tick", "event loop: engine/vloop.py"],
@@ -261,7 +262,7 @@ def _check_unique(vd, batches, items, arr, keep):
 def obligations(tier):
     q = tier == "quick"
     B = 400 if q else 3000
-    dom = {} if q else {"gmax": 5, "imax": 3, "dmax": 4}
+    dom = {}
     obls = []
 
     def add(name, shard, nint, k):
@@ -271,21 +272,24 @@ def obligations(tier):
                      "types": ["int"] * nint + ["bool"] * k, "budget": B})
     kp = 3 if q else 4
     kw = 2 if q else 3
+    small = {} if q else {"gmax": 3, "imax": 2, "dmax": 2}     # domains of the 3-arrival window shards
     for k in range(1, kp + 1):
         for slow in (False, True):
             if slow and k > 3:
                 continue
             nsym = k + 1 + (k + 1 if slow else 0)
             if k <= kw and not (slow and k > (1 if q else 2)):
-                add("timed_window/k=%d/%s" % (k, "slow" if slow else "instant"),
-                    {"kind": "timed_window", "k": k, "slow": slow}, nsym, k)
+                sh = {"kind": "timed_window", "k": k, "slow": slow}
+                if k == 3 or (slow and k == 2):
+                    sh.update(small)
+                add("timed_window/k=%d/%s" % (k, "slow" if slow else "instant"), sh, nsym, k)
             for n in (1, 2, 3):
                 if n > k + 1:
                     continue
-                if slow and k == 3 and q:
+                if slow and k == 3 and (q or n != 2):
                     continue      # (3 arrivals into a slow consumer: thorough tier; quick covers it by C02 schedules)
                 sh = {"kind": "partition", "k": k, "slow": slow, "n": n}
-                if slow and k == 3 and q:
+                if slow and k == 3:
                     sh.update({"gmax": 2, "imax": 2, "dmax": 2})
                 add("partition/n=%d/k=%d/%s" % (n, k, "slow" if slow else "instant"), sh, nsym, k)
         if k <= (2 if q else 3):
@@ -295,7 +299,7 @@ def obligations(tier):
         if k <= kw:
             for keep in ("first", "last"):
                 sh = {"kind": "timed_window_unique", "k": k, "slow": False, "keys": True, "keep": keep}
-                if q:
+                if q or k == 3:
                     sh["imax"] = 2
                     sh["gmax"] = 3
                 add("timed_window_unique/%s/k=%d" % (keep, k), sh, k + 1 + k, k)
